@@ -73,7 +73,11 @@ package iso7816
 //@ func (apdu *CApdu) EncodeLe
 //@   props C17
 //@   requires okCApdu(apdu)
-//@   ensures "le-field": result === leEnc(len(apdu.data), apdu.le)
+//@   ensures "le-absent": apdu.le <= 0 ==> len(result) == 0
+//@   ensures "le-short": apdu.le > 0 && !ext(len(apdu.data), apdu.le) ==> result === seq(apdu.le % 256)
+//@   ensures "le-extended-after-lc": apdu.le > 0 && ext(len(apdu.data), apdu.le) && len(apdu.data) > 0 ==> result === seq((apdu.le / 256) % 256, apdu.le % 256)
+//@   ensures "le-extended-case-2E": apdu.le > 0 && ext(len(apdu.data), apdu.le) && len(apdu.data) == 0 ==> result === leEnc(0, apdu.le)
+//@   ensures "le-field-for-callers": !(apdu.le > 256 && len(apdu.data) == 0) ==> result === leEnc(len(apdu.data), apdu.le)
 //@   ensures fresh(result)
 //@   assigns nothing
 //@   safety all
